@@ -145,6 +145,13 @@ Theorem C08_bip49_address :
 Proof. exact bip49_address_is_p2sh_p2wpkh. Qed.
 Print Assumptions C08_bip49_address.
 
+(* 6'. ParseAPI.address raises nothing, for every network row, every text and every codec behaviour *)
+Theorem C08_parse_address_total :
+  forall (dec : bytes -> option bytes) (sparse : bytes -> option (bytes * N * bytes * N)) (net : netrow) (s : bytes),
+  exists r, parse_address dec sparse net s = Ret r.
+Proof. exact parse_address_total. Qed.
+Print Assumptions C08_parse_address_total.
+
 (* 7. the table itself: every standard row is well-formed (prefixes of at most 2 bytes, P2PKH prefix <> P2SH prefix, an hrp
       the encoder accepts, recorded kinds = kinds with a prefix); a changed prefix that breaks this breaks the build here *)
 Theorem C08_table_wellformed : forall net, In net networks -> nr_std net = true -> net_wf net = true.
